@@ -170,7 +170,7 @@ def run_case(c):
             dds = nacgen.dd_scale(pr, ph.nac_params)
             # ph2ph itself evaluates the Gonze-Lee matrices at commensurate points in [0,1) (not BZ-reduced), so even for a unique
             # BZ representative the interpolated constants carry the reciprocal-sum error: loose tolerance in all Gonze-Lee cases.
-            tol = 1e-3 * max(scale, dds)
+            tol = nacgen.gl_offzone_tolerance(pr, ph.nac_params, scale)[0]
             obs["gonze_q_unique_bz" if nties == 1 else "gonze_q_tied_bz"] = obs.get("gonze_q_unique_bz" if nties == 1 else "gonze_q_tied_bz", 0) + 1
         ph_plain.dynamical_matrix.run(q)
         D1 = np.array(ph_plain.dynamical_matrix.dynamical_matrix)
